@@ -34,6 +34,18 @@ assert all(got[i] == ref[i] for i in range(3000) if i != 2000)
 seq = execpool.SEQ_CRASH.get(p2[2000])
 assert seq and seq[-1] == p2[2000] and len(seq) >= 1201, (seq and len(seq))
 print("history-dependent death at 2000 of 3000 attributed correctly, sequence of %d programs (%.1fs)" % (len(seq), time.time() - t))
+# a wrong answer that depends on what the same process ran before is confirmed by replaying the history, and recorded with it
+from mc import core          # noqa: E402
+ex.close()
+execpool.close_all()
+ck = core.Checker("SELFTEST", "rel")
+cases = [(["hash sha256 p:5:0:%d" % i], [ref[i][0]], None) for i in range(1500)] + [(["selftest_wrong_after 1200"], ["-"], None)]
+ck.run(cases)
+assert ck.stats.violation_count == 1 and ck.stats.violations[0].get("sequence"), ck.stats.violations
+assert ck.stats.violations[0]["sequence"][-1] == "selftest_wrong_after 1200"
+print("history-dependent wrong answer confirmed with a sequence of %d programs" % len(ck.stats.violations[0]["sequence"]))
+execpool.close_all()
+ex = execpool.Executor("rel")
 # slow programs are not mistaken for hangs
 got = ex.run_many(["selftest_sleep 1500"] * 3 + ["hash sha256 p:5:0:3"])
 assert got[:3] == [["-"]] * 3 and got[3] == ref[3], got
